@@ -679,6 +679,29 @@ func (e *Engine) load(place *Term, ctx *Ctx, at ssa.Value) *Term {
 			return e.mk(OpIte, "", at, e.mk(OpBin, "==", nil, place, C("nil")), v, old)
 		}
 	}
+	if len(visible) == 2 && base.Op == OpNew && len(path) == 0 {
+		// a captured local defaulted when nil: `v := x; if v == nil { v = fresh }`
+		// (a variable shared with a function literal lives in memory, not in SSA):
+		// the value after the if-statement is ite(x == nil, fresh, x)
+		for gi := 0; gi < 2; gi++ {
+			gw, iw := visible[gi].w, visible[1-gi].w
+			gst, ok1 := gw.Instr.(*ssa.Store)
+			ist, ok2 := iw.Instr.(*ssa.Store)
+			if !ok1 || !ok2 || gw.Kind != "store" || iw.Kind != "store" || gw.Fn != iw.Fn || !guardedByNilTestOf(gst) || inCycle(gst.Block()) || inCycle(ist.Block()) {
+				continue
+			}
+			test := gst.Block().Preds[0]
+			if !before(ist, test.Instrs[len(test.Instrs)-1]) {
+				continue
+			}
+			if atInstr != nil && atInstr.Parent() == gw.Fn && !(test.Dominates(atInstr.Block()) && atInstr.Block() != gst.Block() && atInstr.Block() != test) {
+				continue
+			}
+			cx := e.ctxFor(gw.Fn, ctx, allocCtx)
+			init := e.Eval(ist.Val, cx)
+			return e.mk(OpIte, "", at, e.mk(OpBin, "==", nil, init, C("nil")), e.Eval(gst.Val, cx), init)
+		}
+	}
 	if !must {
 		if base.Op == OpNew && len(visible) == 0 && isArrayObj(place) {
 			// contents of an array inside a repository-allocated object that
